@@ -71,8 +71,8 @@ def history_actions(tier):
         "read|bad:pseudo-RX",
         "read|bad:pseudo-XR",
         # a graph object the caller keeps: serializing it, canonicalizing it, serializing it again
-        "serialize-retained|isohexane",
-        "canon-retained|isohexane",
+        "serialize-retained|benzene-13C-rad",
+        "canon-retained|benzene-13C-rad",
     ]
     if tier == "thorough":
         names += ["parse|Og2/(1-2)/(2:mass=294)(1:mass=295)", "parse|C//(1:mass=2,mass=3)", "parse|C/(1 -2)",
